@@ -21,6 +21,7 @@ EXPLANATION = (
     "used as row sets (typestate, shared with C06.R3); (R4) in every backend validate the drop is reached only when errors "
     "were collected and the option is set, its result is returned, and otherwise SchemaErrors is raised. (R5) in reshape_failure_cases no dropna() precedes the wide-to-long reshaping step (a row-wise dropna on the wide table loses failing rows that hold a null elsewhere); (R6) the object that the pandas column / index / multi-index backends hand to the delegated validation keeps the labels of the working object (no reset_index(drop=True) / .values / to_numpy), because drop_invalid_rows matches failure-case labels against check_obj.index. " 
     " (R7) the check_output a polars core check hands over is the single column CHECK_OUTPUT_KEY (select/alias, never a rename inside the frame of all selector-matched columns); (R8) a container validates its components so that a component's own drop_invalid_rows cannot swallow its errors; (R9) pandas drop_invalid_rows compares labels as objects (no eval of their printed form); (R10) the rows to drop derive from the complete check output, not from the failure-case report that n_failure_cases truncates. " 
+    " (R11) pandas drop_invalid_rows never skips a collected error (no `continue` / bypass for errors without row-shaped failure cases). " 
     "NOT decided: "
     "row-set equality on real data; MultiIndex label round trip through str/eval."
 )
